@@ -199,8 +199,59 @@ def _witness_zero_test_on_divisor(prog, w):
     return True
 
 
+def _witness_callers_prove_index(prog, w):
+    """Every call, from outside the file that defines them, of a method of trait `trait` that takes
+    (self, index: usize) is made with `index < len(self)` proved at the call site by the comparisons that
+    dominate it (bounds.Prover: `len == n`, `len < n` refused, `for i in a..len`), or is listed with its
+    reason in w["tabled"] (keys: <caller fn name>:<method>:<index term>)."""
+    from .. import bounds
+    from ..sympath import show
+    n = 0
+    tabled = w.get("tabled", {})
+    used_tabled = set()
+    for f in sorted(prog.fns.values(), key=lambda x: x.id):
+        if f.body is None or f.crate != w["crate"] or w["defining_file"] in (f.file or ""):
+            continue
+        for b, t in f.body.calls():
+            cp = t.get("cpath") or ""
+            if (w["trait"] + "::") not in cp or len(t["args"]) != 2:
+                continue
+            p = mir.op_place(t["args"][1])
+            ty = f.body.locals[p[0]]["ty"] if p is not None else ((t["args"][1].get("k") or {}).get("ty"))
+            if ty != "usize":
+                continue
+            n += 1
+            pr = bounds.Prover(prog, f)
+            base = bounds._strip(pr.ex.of_operand(t["args"][0]))
+            idx = pr.ex.of_operand(t["args"][1])
+            goal = bounds.mk_lt(idx, ("len", base))
+            if goal[0] == "c":
+                ok = bool(goal[1])
+            elif goal[0] != "lt":
+                ok = False
+            else:
+                ok, _used = pr.prove(b, goal, True)
+            if ok:
+                continue
+            key = "%s:%s:%s" % (f.path.split("::", 1)[1], cp.split("::")[-1], re.sub(r"_\d+", "_", show(idx)))
+            if key in tabled:
+                used_tabled.add(key)
+                continue
+            w["_why"] = "%s (line %s) calls %s with index %s, and %s does not follow from the tests that dominate the call" \
+                        % (f.path, t.get("ln"), cp.split("::")[-1], show(idx), show(goal))
+            return False
+    if n < w.get("min_calls", 1):
+        raise CheckError("witness callers_prove_index: only %d calls of %s methods found" % (n, w["trait"]))
+    stale = set(tabled) - used_tabled
+    if stale:
+        raise CheckError("witness callers_prove_index: tabled call sites no longer exist: %s" % sorted(stale))
+    return True
+
+
 def witness_holds(prog, w):
     """re-check one machine-checkable part of an audited invariant (tables/panic_witnesses.json)."""
+    if w["kind"] == "callers_prove_index":
+        return _witness_callers_prove_index(prog, w)
     if w["kind"] == "zero_test_on_divisor":
         return _witness_zero_test_on_divisor(prog, w)
     if w["kind"] != "parser_mandatory":
